@@ -21,7 +21,7 @@ ModelInit ==
   /\ sess' = [k \in Keys |-> Nil] /\ open' = <<>>
   /\ maxTs' = -1 /\ wmCur' = NoWm /\ wmSent' = NoWm /\ wmChan' = <<>>
   /\ tpc' = "idle" /\ twm' = NoWm /\ pend' = <<>>
-  /\ out' = <<>> /\ emitted' = <<>> /\ hist' = <<>>
+  /\ out' = <<>> /\ emitted' = <<>> /\ hist' = <<>> /\ lq' = <<>>
 Drift(code) == /\ PrintT(<<"DRIFT", tr, l, code>>) /\ dead' = TRUE /\ UNCHANGED <<vars, seen, tr>>
 Skip == UNCHANGED <<vars, seen, dead, tr>>
 Live == {k \in Keys : sess[k] # Nil}
@@ -36,13 +36,16 @@ TNext ==
      ELSE IF dead THEN Skip
      ELSE IF e.e = "add" THEN
         IF e.fut = 1 \/ e.g \notin Keys THEN Drift("row_outside_the_model")
-        ELSE IF ~(Len(emitted) < MaxEv /\ tpc \in {"idle", "fired"}) THEN Drift("add_while_the_model_holds_the_lock")
+        ELSE IF ~(Len(emitted) < MaxEv /\ tpc \in {"idle", "fired"} /\ lq = <<>>) THEN Drift("add_while_the_model_holds_the_lock")
         ELSE Add(e.g, e.ts) /\ UNCHANGED <<seen, dead, tr>>
      ELSE IF e.e = "h.add" THEN
         IF e.n # Cardinality(Live) THEN Drift("live_sessions")
         \* triggeredSessions is keyed by session key (older fired sessions of a key hang off the newest one): the hook reports keys
         ELSE IF e.no # Cardinality({open[i].key : i \in 1..Len(open)}) THEN Drift("keys_with_sessions_open_for_late_events")
         ELSE Skip
+     ELSE IF e.e = "latesend" THEN       \* the producer, parked inside Add after it released sw.mu for the late re-delivery, is let go
+        IF lq = <<>> THEN Drift("no_late_redelivery_pending_in_the_model") ELSE LateSend /\ UNCHANGED <<seen, dead, tr>>
+     ELSE IF e.e = "freerun" THEN dead' = TRUE /\ UNCHANGED <<vars, seen, tr>>
      ELSE IF e.e = "trig" THEN
         IF ~(tpc = "idle" /\ wmChan # <<>> /\ emitted # <<>>) THEN Drift("no_watermark_pending_in_the_model") ELSE Trig /\ UNCHANGED <<seen, dead, tr>>
      ELSE IF e.e = "send" THEN
